@@ -127,17 +127,61 @@ HARNESSES.append(
          backends=["default", "kissat"],
          bound="tbd"))
 
+def newdir_cfgs():
+    c = []
+    for bs, feat in ((32, {}), (64, {"WITH_FILETYPE": None}), (48, {"WITH_CSUM": None}),
+                     (64, {"WITH_CSUM": None, "WITH_FILETYPE": None})):
+        d = {"BS": bs}
+        d.update(feat)
+        d["_unwindset"] = blk_unwind(bs, 1, ["memset.0:%d" % (bs + 1)])
+        c.append(d)
+    return c
+
+HARNESSES.append(
+    dict(name="newdir", src="newdir.c",
+         funcs=["ext2fs_new_dir_block", "ext2fs_set_rec_len", "ext2fs_initialize_dirent_tail"],
+         extra_harness_src=["C10/iter_unit.c"], extra_src=["lib/ext2fs/csum.c"],
+         configs=newdir_cfgs(), unwind=4,
+         backends=["default", "kissat"],
+         bound="tbd"))
+
 def hash_unwind(maxlen):
     return ["dx_hack_hash.0:%d" % (maxlen + 2), "str2hashbuf.0:%d" % (maxlen + 2), "str2hashbuf.1:10",
             "ext2fs_dirhash.0:6", "ext2fs_dirhash.1:%d" % (maxlen // 32 + 3), "ext2fs_dirhash.2:%d" % (maxlen // 16 + 3),
             "TEA_transform.0:18", "ref_half_md4.0:9", "ref_half_md4.1:4", "ref_tea.0:17",
-            "ref_pack.0:5", "ref_pack.1:9", "ref_legacy.0:%d" % (maxlen + 1)] + \
+            "ref_pack.0:5", "ref_pack.1:9", "ref_half_md4.0:9", "ref_half_md4.1:4", "ref_legacy.0:%d" % (maxlen + 1)] + \
            ["main.%d:%d" % (i, maxlen + 3) for i in range(6)]
 
 def hash_cfgs():
     c = []
-    for v in (1, 2, 5):
-        c.append({"HVER": v, "MAXLEN": 8, "NLEN": 5, "_unwindset": hash_unwind(8)})
+    def full(v, n, **kw):
+        ml = max(n, 8)
+        d = {"HVER": v, "MAXLEN": ml, "NLEN": n, "_unwindset": hash_unwind(ml), "_backends": ["z3", "kissat"]}
+        d.update(kw)
+        return d
+    # A. packing, all names: TEA (4 words) and half-MD4 (8 words), signed and unsigned, incl. truncation
+    for v, num, ml in ((2, 4, 18), (5, 4, 18), (1, 8, 10), (4, 8, 34)):
+        c.append({"MODE": 1, "HVER": v, "NUM": num, "MAXLEN": ml, "_unwindset": hash_unwind(ml), "_backends": ["default", "kissat"]})
+    # B. one transform step, all states and message words
+    c.append({"MODE": 2, "HVER": 1, "_unwindset": hash_unwind(8), "_backends": ["cvc5", "kissat"]})
+    c.append({"MODE": 2, "HVER": 2, "_unwindset": hash_unwind(8), "_backends": ["z3", "kissat"]})
+    # C. seed and result-word selection, all seeds (empty name: no transform)
+    for v in (1, 2, 4, 5):
+        c.append(full(v, 0))
+    c.append(full(2, 0, NULLSEED=None))
+    # D. legacy hash end to end, all names of the given length
+    for v, n in ((0, 1), (0, 5), (3, 8), (3, 4)):
+        c.append(full(v, n))
+    # E. glue of the keyed hashes on a fixed vector (1, 2 and 3 chunks)
+    for v, n in ((1, 7), (4, 37), (2, 16), (5, 37), (2, 33)):
+        c.append(full(v, n, CONCRETE=None, _backends=["default"]))
+    # F. end to end, all names of the length and all seeds (slow: the solver re-proves the transform)
+    c.append(full(1, 5, _tier="thorough", _backends=["kissat", "cvc5"]))
+    c.append(full(4, 8, _tier="thorough", _backends=["kissat", "cvc5"]))
+    c.append(full(2, 5, _tier="thorough", _backends=["kissat"]))
+    # G. kernel's EOF remap
+    c.append(full(0, 6, CHECK_EOF=None))
+    c.append(full(2, 1, CHECK_EOF=None))
     return c
 
 HARNESSES.append(
